@@ -113,24 +113,38 @@ def frequency_grid(r, p, nsing):
     return np.array(om), tags
 
 
-def window_frequency(r, p):
+def window_frequency(r, p, G):
     """a frequency next to a singular point where |det(1 - T)| just passes the isclose test of the implementation
-    (so the solve branch is taken) although 1 - T is very ill-conditioned; None if there is none"""
+    (so the solve branch is taken) although 1 - T is very ill-conditioned; among the eigenphases the one where
+    calculate_control_matrix_periodic deviates most from the explicit sum.  None if there is none."""
     import numpy.linalg as nla
     tau = p.tau
-    L = p.total_propagator_liouville
+    L = np.array(p.total_propagator_liouville)
     n = L.shape[0]
     th = np.angle(np.linalg.eigvals(L))
-    th = th[np.abs(th) > 1e-6]
-    if not len(th):
-        return None
-    theta = float(r.choice(th))
-    for delta in 10.0 ** np.arange(-14, -6, 0.1):
-        w = (-theta + delta) / tau
-        M = np.eye(n) - util.cexp(np.array([w * tau]))[0] * L
-        if not np.isclose(nla.det(M), 0):
-            return w
-    return None
+    th = sorted(set(np.round(th[np.abs(th) > 1e-6], 10)))
+    best = (-1.0, None)
+    for theta in th:
+        for delta in 10.0 ** np.arange(-14, -6, 0.1):
+            w = (-theta + delta) / tau
+            ph = util.cexp(np.array([w * tau]))
+            if not np.isclose(nla.det(np.eye(n) - ph[0] * L), 0):
+                break
+        else:
+            continue
+        B = gen.fresh(p).get_control_matrix(np.array([w]))
+        out = numeric.calculate_control_matrix_periodic(ph, B, L, G)
+        T = ph[0] * L
+        S = np.eye(n, dtype=complex)
+        acc = np.eye(n, dtype=complex)
+        for _ in range(1, G):
+            acc = acc @ T
+            S = S + acc
+        ref = (B.transpose(2, 0, 1) @ S[None]).transpose(1, 2, 0)
+        err = np.abs(out - ref).max() / max(np.abs(ref).max(), 1e-300)
+        if err > best[0]:
+            best = (err, w)
+    return best[1]
 
 
 def pack(p):
@@ -328,7 +342,7 @@ def one_case(r, i, thorough, spec=None, window_case=False):
             cls, d, G = 'window', 4, [5, 16][i % 2]
             pp, _ = gen.rand_pulse(r, d=4, G=2, basis_kind='pauli', dtc='generic', amp='generic', noise='generic', sens='generic')
             p = pp
-            w = window_frequency(r, p)
+            w = window_frequency(r, p, G)
             omega = np.array([w if w is not None else 0.3, float(r.uniform(-3, 3))])
             ftags = ['window' if w is not None else 'generic', 'generic']
         else:
